@@ -211,6 +211,15 @@ impl Family for C03 {
                 _ => break,
             }
         }
+        // "leaves the reader exactly at the end of the codeword": after the last element nothing
+        // follows that could reveal a wrong position, so it is asked for directly
+        if !ctx.failed() && !sim.dead && sim.pos == *w.starts.last().unwrap() {
+            let mut t = sim.tags("bit_pos_at_end");
+            t.push(format!("table_read_seen={}", if table_seen { "yes" } else { "no" }));
+            ctx.step(t);
+            ctx.probe("c03.final_position_checked");
+            let _ = sim.step(ctx, s.elems.len(), &ROp::BitPos);
+        }
         sim.harvest_faults(ctx);
     }
 
@@ -296,6 +305,7 @@ impl Family for C03 {
 
     fn required_probes(_t: Tier) -> Vec<&'static str> {
         vec![
+            "c03.final_position_checked",
             "scale.giant_roundtrip",]
     }
 
